@@ -9,6 +9,7 @@ import (
 	"fmt"
 	"io"
 	"log"
+	"math"
 	"os"
 	"path/filepath"
 	"regexp"
@@ -120,8 +121,13 @@ func (s *JSONDB) newWriter(dagFile string, t time.Time, requestID string) (*writ
 
 func (s *JSONDB) ReadStatusRecent(dagFile string, n int) []*model.StatusFile {
 	var ret []*model.StatusFile
-	files := s.latest(s.globPattern(dagFile), n)
+	// A file without a parseable status (a run killed before its first
+	// write) must not use up one of the n slots.
+	files := s.latest(s.globPattern(dagFile), math.MaxInt)
 	for _, file := range files {
+		if len(ret) >= n {
+			break
+		}
 		status, err := s.cache.LoadLatest(file, func() (*model.Status, error) {
 			return ParseFile(file)
 		})
@@ -137,13 +143,20 @@ func (s *JSONDB) ReadStatusRecent(dagFile string, n int) []*model.StatusFile {
 }
 
 func (s *JSONDB) ReadStatusToday(dagFile string) (*model.Status, error) {
-	file, err := s.latestToday(dagFile, time.Now(), s.latestStatusToday)
+	files, err := s.latestToday(dagFile, time.Now(), s.latestStatusToday)
 	if err != nil {
 		return nil, err
 	}
-	return s.cache.LoadLatest(file, func() (*model.Status, error) {
-		return ParseFile(file)
-	})
+	// newest first; skip files that hold no parseable status yet
+	for _, file := range files {
+		status, err := s.cache.LoadLatest(file, func() (*model.Status, error) {
+			return ParseFile(file)
+		})
+		if err == nil {
+			return status, nil
+		}
+	}
+	return nil, persistence.ErrNoStatusData
 }
 
 func (s *JSONDB) FindByRequestID(dagFile string, requestID string) (*model.StatusFile, error) {
@@ -283,7 +296,7 @@ func (s *JSONDB) newFile(dagFile string, t time.Time, requestID string) (string,
 	), nil
 }
 
-func (s *JSONDB) latestToday(dagFile string, day time.Time, latestStatusToday bool) (string, error) {
+func (s *JSONDB) latestToday(dagFile string, day time.Time, latestStatusToday bool) ([]string, error) {
 	var pattern string
 	if latestStatusToday {
 		pattern = fmt.Sprintf("%s.%s*.*.dat", escapeGlob(s.prefixWithDirectory(dagFile)), day.Format(dateFormat))
@@ -292,13 +305,13 @@ func (s *JSONDB) latestToday(dagFile string, day time.Time, latestStatusToday bo
 	}
 	matches, err := filepath.Glob(pattern)
 	if err != nil || len(matches) == 0 {
-		return "", persistence.ErrNoStatusDataToday
+		return nil, persistence.ErrNoStatusDataToday
 	}
-	ret := filterLatest(matches, 1)
+	ret := filterLatest(matches, len(matches))
 	if len(ret) == 0 {
-		return "", persistence.ErrNoStatusData
+		return nil, persistence.ErrNoStatusData
 	}
-	return ret[0], nil
+	return ret, nil
 }
 
 func (s *JSONDB) latest(pattern string, n int) []string {
